@@ -8,11 +8,14 @@ LEVEL = "proof"
 TARGETS = ['MutateAttr', 'DeepCopy', 'WithAttr', 'ResetAttr', 'Reset', 'InvalidateAttrs', 'DelAttr', 'SetAttr']
 FAMILY_FILTER = ['c01.'] + STRUCTURAL
 ASSUMPTIONS = A_COMMON + [
+    "protect_via_deepcopy is used by its callers through the contract ProtectCopy; that contract (copier clause) is discharged against "
+    "the function body in the sub-check ProtectBody, where copy.deepcopy itself is the assumed A-COPY and the module guard is used through its C20 contracts",
     "clauses of other properties on the same functions are discharged by those properties' own checks",
     "transitive chains of invalidation, collection element helpers, update/transform (mutate_value) and the constructor are covered here "
     "only through the bounded harness; their contracts live in the checks of C05/C06/C09",
 ]
 EXPLANATION = "write-site frame obligations: in mutate_attr / with_<attr> / reset_<attr> / reset / __deepcopy__ every heap write targets an object allocated during the call unless _inplace (or a do_not_copy class); 'receiver unchanged' is a postcondition on normal and exceptional exits; callee effects by contract"
+SUBCHECKS = [("props._copy_protect", ["ProtectBody"])]
 FINDINGS = []
 
 
